@@ -10,7 +10,9 @@
     the file system) is established only by the correspondence over real CLI runs (harness/props/c16.py).
 
     This file contains only statements closed by [exact] of lemmas proved in Proofs/C16Proofs.v. *)
-From RP2V Require Import Base.Prelude Base.Sorting Model.Types Model.Generated Model.MainRun Proofs.RunLemmas Proofs.C16Proofs.
+From RP2V Require Import Base.Prelude Base.Sorting Model.Types.
+From RP2V Require Import Model.Generated Model.MainRun Proofs.RunLemmas.
+From RP2V Require Import Proofs.C16Proofs.
 Open Scope Z_scope.
 
 (** For every language for which a country ships at least one template: the catalogue exists and every
